@@ -184,7 +184,10 @@ class G:
         elif k == "sink":
             u = self.pick_up()
             if self.allow_async and r.random() < 0.5:
-                self.add({"kind": "sink", "mode": "async", "ups": [u]}, None)
+                nd = {"kind": "sink", "mode": "async", "ups": [u]}
+                if self.types[u] == "I" and r.random() < self.fail_prob:
+                    nd["prefail"] = [r.choice([2, 3]), r.choice([0, 1])]     # consumer failing before its first suspension point
+                self.add(nd, None)
             else:
                 f = ["id"]
                 if self.types[u] == "I" and r.random() < self.fail_prob:
